@@ -1,7 +1,7 @@
 SPECIFICATION Spec
 CONSTANTS
   RouteFirst = {"-", "hop1", "hop4.name", "own.addr", "own.alias"}
-  RouteRest = {"hop1", "hop2.tcp", "hop4.name"}
+  RouteRest = {"hop1", "hop2.tcp", "hop4.name", "own.addr"}
   MaxRoute = 3
   ViaLens = {1, 2, 3}
   RRLens = {0, 1, 2}
